@@ -28,7 +28,15 @@ type Mutex struct {
 	m sync.Mutex
 }
 
+// While a finished run is being torn down (simrt.Poisoned) the remaining
+// goroutines are released one at a time only to run their deferred calls and
+// exit; locks are then no-ops (a goroutine poisoned while parked inside Lock
+// would otherwise "unlock an unlocked mutex" in its deferred Unlock).
+
 func (m *Mutex) Lock() {
+	if simrt.Poisoned() {
+		return
+	}
 	if !simrt.Active() {
 		m.m.Lock()
 		return
@@ -45,6 +53,9 @@ func (m *Mutex) TryLock() bool {
 }
 
 func (m *Mutex) Unlock() {
+	if simrt.Poisoned() {
+		return
+	}
 	m.m.Unlock()
 	simrt.Wake(unsafe.Pointer(m))
 }
@@ -55,6 +66,9 @@ type RWMutex struct {
 }
 
 func (m *RWMutex) Lock() {
+	if simrt.Poisoned() {
+		return
+	}
 	if !simrt.Active() {
 		m.m.Lock()
 		return
@@ -71,11 +85,17 @@ func (m *RWMutex) TryLock() bool {
 }
 
 func (m *RWMutex) Unlock() {
+	if simrt.Poisoned() {
+		return
+	}
 	m.m.Unlock()
 	simrt.Wake(unsafe.Pointer(m))
 }
 
 func (m *RWMutex) RLock() {
+	if simrt.Poisoned() {
+		return
+	}
 	if !simrt.Active() {
 		m.m.RLock()
 		return
@@ -92,6 +112,9 @@ func (m *RWMutex) TryRLock() bool {
 }
 
 func (m *RWMutex) RUnlock() {
+	if simrt.Poisoned() {
+		return
+	}
 	m.m.RUnlock()
 	simrt.Wake(unsafe.Pointer(m))
 }
@@ -155,16 +178,25 @@ type WaitGroup struct {
 }
 
 func (w *WaitGroup) Add(n int) {
+	if simrt.Poisoned() {
+		return
+	}
 	simrt.Yield(simrt.ClassAtomic)
 	w.wg.Add(n)
 }
 
 func (w *WaitGroup) Done() {
+	if simrt.Poisoned() {
+		return
+	}
 	simrt.Yield(simrt.ClassAtomic)
 	w.wg.Done()
 }
 
 func (w *WaitGroup) Wait() {
+	if simrt.Poisoned() {
+		return
+	}
 	simrt.Yield(simrt.ClassChan)
 	w.wg.Wait()
 	simrt.Yield(simrt.ClassWake)
